@@ -470,7 +470,7 @@ Print Assumptions readd_starts_enabled.
 Print Assumptions disabled_location_refuses.
 Print Assumptions disabled_location_refuses_addfact.
 Print Assumptions disabled_no_rule_fires.
-Print Assumptions statesize_ignores_enabled_counterexample.
+Print Assumptions statesize_reports_disabled_example.
 Print Assumptions reload_linear_keeps_facts.
 Print Assumptions flag_survives_reload.
 Print Assumptions flag_survives_reload_linear.
